@@ -1,7 +1,12 @@
 (* C13 — PIL grammar: parsing inverts rendering, statement by statement.
-   Only property theorems: each is closed by `exact` and followed by Print Assumptions. *)
+   Only property theorems: each is closed by `exact` and followed by Print Assumptions.
+   `pil_nodes` / `pil_grammar` is the node table regenerated on every run from the
+   runtime pyparsing element graph (gen/PilGrammar.v); `parse_pil_fuel f text` is the
+   model of parse_pil_string(text) with interpreter fuel f (result `OutOfFuel` when
+   exhausted: every theorem gives the answer for all sufficiently large f). *)
 From Coq Require Import List NArith.
-From DSD Require Import Base.Str Base.Errors Base.Val Model.Peg Model.DispatchPeg Proofs.C13Base.
+From DSD Require Import Base.Str Base.Errors Base.Val Model.Peg Model.DispatchPeg
+  Proofs.PegMono Proofs.PegStd Proofs.PegDoc Proofs.C13Base Proofs.C13Doc Proofs.PilLex Proofs.C13Dl.
 From DSDGen Require Import PilGrammar.
 Import ListNotations.
 
@@ -9,3 +14,63 @@ Import ListNotations.
 Theorem C13_grammar_table_closed : grammar_ok pil_grammar = true.
 Proof. exact pil_grammar_closed. Qed.
 Print Assumptions C13_grammar_table_closed.
+
+(* Parsing a document = concatenating the parses of its statements, in order.
+   A document is: blank / comment lines, then statements (leading blanks + text; each
+   text is consumed exactly, with its tokens, by the statement node before every
+   admissible continuation), then trailing blanks / a comment without newline. *)
+Theorem C13_document_concat : forall pls its tl,
+  Forall pil_blank_line pls -> Forall pil_item_ok its -> its <> [] -> pil_tail_ok tl ->
+  let D := concat pls ++ flatten its ++ tl in
+  no_tab D ->
+  exists f0, forall f, f0 <= f -> parse_pil_fuel f D = vals (flat_map it_toks its).
+Proof. exact pil_document_concat. Qed.
+Print Assumptions C13_document_concat.
+
+(* ... in the words of the property: the document of the statements parses to the
+   concatenation of what the one-statement documents parse to *)
+Theorem C13_document_is_concat_of_statement_parses : forall its,
+  Forall pil_item_ok its -> its <> [] -> no_tab (flatten its) ->
+  Forall (fun it => no_tab (it_blanks it ++ it_text it)) its ->
+  exists f0, forall f, f0 <= f ->
+    parse_pil_fuel f (flatten its) =
+    VList (flat_map (fun it => match parse_pil_fuel f (it_blanks it ++ it_text it) with VList l => l | _ => [] end) its).
+Proof. exact pil_document_is_concat_of_statements. Qed.
+Print Assumptions C13_document_is_concat_of_statement_parses.
+
+(* the result does not depend on anything but the table and the text:
+   (i) once the fuel suffices, more fuel never changes the answer *)
+Theorem C13_result_independent_of_fuel : forall G text f f',
+  parse_string_fuel G f text <> PFuel -> f <= f' -> parse_string_fuel G f' text = parse_string_fuel G f text.
+Proof. exact parse_fuel_irrelevant. Qed.
+Print Assumptions C13_result_independent_of_fuel.
+
+(* (ii) no hidden state: equal tables give equal answers on every text (that the table
+   itself is the same after any history of PIL / seesaw parser calls is observed by the
+   translator, which dumps it after such histories and compares) *)
+Theorem C13_result_function_of_table_and_text : forall G1 G2 text,
+  gnodes G1 = gnodes G2 -> groot G1 = groot G2 -> parse_string G1 text = parse_string G2 text.
+Proof. exact parse_function_of_table_and_text. Qed.
+Print Assumptions C13_result_function_of_table_and_text.
+
+(* parsing a file is parsing its content *)
+Theorem C13_parse_file_eq_string : forall content, parse_pil_file content = parse_pil content.
+Proof. exact parse_file_eq_string. Qed.
+Print Assumptions C13_parse_file_eq_string.
+
+(* Round trip, domain-length statement: for EVERY name (non-empty over the identifier
+   alphabet, optional star), every length (any digit string, `short`, `long`; with the
+   keyword `sequence` a digit string), each of the three keywords, both assignment signs,
+   arbitrary runs of blanks, and every statement end (line end, comment, blank lines /
+   end of input), the statement node returns exactly the token tree. *)
+Theorem C13_roundtrip_dl_domain : forall s y,
+  dl_stmt_ok s -> dl_layout_ok y -> pil_body_ok (dl_render s y) [dl_tree s].
+Proof. exact roundtrip_dl_domain. Qed.
+Print Assumptions C13_roundtrip_dl_domain.
+
+Theorem C13_roundtrip_dl_domain_parse_string : forall s y b E,
+  dl_stmt_ok s -> dl_layout_ok y -> blanks pil_ws b -> stmt_end E [] ->
+  no_tab (b ++ dl_render s y ++ E) ->
+  exists f0, forall f, f0 <= f -> parse_pil_fuel f (b ++ dl_render s y ++ E) = vals [dl_tree s].
+Proof. exact roundtrip_dl_domain_parse. Qed.
+Print Assumptions C13_roundtrip_dl_domain_parse_string.
